@@ -21,5 +21,36 @@ theorem el_case_disableBracketedPasteMsg : Tea.Gen.fact_el_case_disableBracketed
 theorem el_case_enableReportFocusMsg : Tea.Gen.fact_el_case_enableReportFocusMsg = Tea.Doc.fact_el_case_enableReportFocusMsg := rfl
 theorem el_case_disableReportFocusMsg : Tea.Gen.fact_el_case_disableReportFocusMsg = Tea.Doc.fact_el_case_disableReportFocusMsg := rfl
 theorem el_case_clearScreenMsg : Tea.Gen.fact_el_case_clearScreenMsg = Tea.Doc.fact_el_case_clearScreenMsg := rfl
+theorem body_WithAltScreen : Tea.Gen.fact_body_WithAltScreen = Tea.Doc.fact_body_WithAltScreen := rfl
+theorem body_WithoutBracketedPaste : Tea.Gen.fact_body_WithoutBracketedPaste = Tea.Doc.fact_body_WithoutBracketedPaste := rfl
+theorem body_WithMouseCellMotion : Tea.Gen.fact_body_WithMouseCellMotion = Tea.Doc.fact_body_WithMouseCellMotion := rfl
+theorem body_WithMouseAllMotion : Tea.Gen.fact_body_WithMouseAllMotion = Tea.Doc.fact_body_WithMouseAllMotion := rfl
+theorem body_WithReportFocus : Tea.Gen.fact_body_WithReportFocus = Tea.Doc.fact_body_WithReportFocus := rfl
+theorem body_startupOptions_has : Tea.Gen.fact_body_startupOptions_has = Tea.Doc.fact_body_startupOptions_has := rfl
+theorem body_ClearScreen : Tea.Gen.fact_body_ClearScreen = Tea.Doc.fact_body_ClearScreen := rfl
+theorem body_EnterAltScreen : Tea.Gen.fact_body_EnterAltScreen = Tea.Doc.fact_body_EnterAltScreen := rfl
+theorem body_ExitAltScreen : Tea.Gen.fact_body_ExitAltScreen = Tea.Doc.fact_body_ExitAltScreen := rfl
+theorem body_EnableMouseCellMotion : Tea.Gen.fact_body_EnableMouseCellMotion = Tea.Doc.fact_body_EnableMouseCellMotion := rfl
+theorem body_EnableMouseAllMotion : Tea.Gen.fact_body_EnableMouseAllMotion = Tea.Doc.fact_body_EnableMouseAllMotion := rfl
+theorem body_DisableMouse : Tea.Gen.fact_body_DisableMouse = Tea.Doc.fact_body_DisableMouse := rfl
+theorem body_HideCursor : Tea.Gen.fact_body_HideCursor = Tea.Doc.fact_body_HideCursor := rfl
+theorem body_ShowCursor : Tea.Gen.fact_body_ShowCursor = Tea.Doc.fact_body_ShowCursor := rfl
+theorem body_EnableBracketedPaste : Tea.Gen.fact_body_EnableBracketedPaste = Tea.Doc.fact_body_EnableBracketedPaste := rfl
+theorem body_DisableBracketedPaste : Tea.Gen.fact_body_DisableBracketedPaste = Tea.Doc.fact_body_DisableBracketedPaste := rfl
+theorem body_EnableReportFocus : Tea.Gen.fact_body_EnableReportFocus = Tea.Doc.fact_body_EnableReportFocus := rfl
+theorem body_DisableReportFocus : Tea.Gen.fact_body_DisableReportFocus = Tea.Doc.fact_body_DisableReportFocus := rfl
+theorem body_SetWindowTitle : Tea.Gen.fact_body_SetWindowTitle = Tea.Doc.fact_body_SetWindowTitle := rfl
+theorem body_Program_EnterAltScreen : Tea.Gen.fact_body_Program_EnterAltScreen = Tea.Doc.fact_body_Program_EnterAltScreen := rfl
+theorem body_Program_ExitAltScreen : Tea.Gen.fact_body_Program_ExitAltScreen = Tea.Doc.fact_body_Program_ExitAltScreen := rfl
+theorem body_Program_EnableMouseCellMotion : Tea.Gen.fact_body_Program_EnableMouseCellMotion = Tea.Doc.fact_body_Program_EnableMouseCellMotion := rfl
+theorem body_Program_DisableMouseCellMotion : Tea.Gen.fact_body_Program_DisableMouseCellMotion = Tea.Doc.fact_body_Program_DisableMouseCellMotion := rfl
+theorem body_Program_EnableMouseAllMotion : Tea.Gen.fact_body_Program_EnableMouseAllMotion = Tea.Doc.fact_body_Program_EnableMouseAllMotion := rfl
+theorem body_Program_DisableMouseAllMotion : Tea.Gen.fact_body_Program_DisableMouseAllMotion = Tea.Doc.fact_body_Program_DisableMouseAllMotion := rfl
+theorem body_Program_SetWindowTitle : Tea.Gen.fact_body_Program_SetWindowTitle = Tea.Doc.fact_body_Program_SetWindowTitle := rfl
+theorem body_standardRenderer_altScreen : Tea.Gen.fact_body_standardRenderer_altScreen = Tea.Doc.fact_body_standardRenderer_altScreen := rfl
+theorem body_standardRenderer_bracketedPasteActive : Tea.Gen.fact_body_standardRenderer_bracketedPasteActive = Tea.Doc.fact_body_standardRenderer_bracketedPasteActive := rfl
+theorem body_standardRenderer_reportFocus : Tea.Gen.fact_body_standardRenderer_reportFocus = Tea.Doc.fact_body_standardRenderer_reportFocus := rfl
+theorem body_standardRenderer_execute : Tea.Gen.fact_body_standardRenderer_execute = Tea.Doc.fact_body_standardRenderer_execute := rfl
+theorem body_standardRenderer_setWindowTitle : Tea.Gen.fact_body_standardRenderer_setWindowTitle = Tea.Doc.fact_body_standardRenderer_setWindowTitle := rfl
 
 end Tea.Props.Bridge.C12
